@@ -71,9 +71,9 @@ P = {
    "Selection histories (generator shared with C03); at every enhanced-mode decision the monitor recomputes eligibility, in-flight cap, 2 % quality gate, 80 % warming weight and soft-cap factor from the pre-state with its own formulas (quality multiplier read back and range-checked in [0.35, 1.1 x 1.03]) and checks the decision relations with relative tolerance 1e-9 (chosen not skipped; capped not chosen while an unconstrained link exists; a switch needs >= 1.10x; a hold means nobody reaches 1.10x; otherwise argmax) plus idempotence on the resulting state. Seeded sampling of score space incl. equal and zero scores, stale caches, skipped previous link.",
    "Trusted: the quality multiplier value is the one the decision cached (only its range is checked); the stall-gated flag is read back right after the decision. One run in a hundred feeds the same relations from the routing decisions of closed-loop runs on the real shell (ordinary packets only; must-land packets may be overridden by the shell).",
    "§P-C11"),
- "C12": (True, "K", "exploration",
+ "C12": (True, "KL", "exploration",
    "Selection histories (generator shared with C03) with guard on/off toggles; around every routing decision the liveness/accounting projection of every link is compared before/after, and with the guard off every stall flag, pull and latch must be cleared and the decision must equal the decision of the real selector on a clone whose stall history was erased. Relational check sampled over seeded histories.",
-   "Trusted: hook H7 (derive(Clone, Debug) under the feature, verif_clear_stall_history) reproduces / erases state faithfully.",
+   "Trusted: hook H7 (derive(Clone, Debug) under the feature, verif_clear_stall_history) reproduces / erases state faithfully. One run in twenty-one is a closed-loop run on the real shell (engine L): around every routing decision not followed by uplink datagrams in the same loop iteration, every uplink that was handed nothing keeps its projection; with the guard off all stall state is cleared and the shell's choice equals the selector's on clones with erased history (links that were handed a datagram are excluded: queueing legitimately changes their accounting).",
    "§P-C12"),
  "C13": (True, "KL", "exploration",
    "Selection histories (generator shared with C03; one event in ten expands into a tempting latch trace: backlog, proof, silence, then single ACK / drained backlog / sustained proof with or without a lapse; RTT baselines none / 20 ms .. 2 s; ceilings below the 1000 ms floor); an independent temporal monitor with its own proof / heard clocks judges every latch and pull edge and the two engagement counters. Temporal contract sampled over seeded traces.",
